@@ -13,7 +13,7 @@
      crates/core/search.rs::SearchWorker::{search, should_preprocess, should_decompress}
      crates/cli/src/process.rs::CommandReader::close *)
 From Coq Require Import NArith Bool List.
-From RG Require Import Model.CliTypes.
+From RG Require Import Base.Bytes Model.CliTypes Model.PreZipFlags.
 Import ListNotations.
 Local Open Scope bool_scope.
 
@@ -88,3 +88,9 @@ Definition file_separator_expected (m : mode) (heading : bool) (context : contex
   end.
 
 Definition printer_owns_separator_expected (threads : N) : bool := (threads =? 1)%N.
+
+(* defs.rs: <Pre as Flag>::update on a value / on the negated switch, <SearchZip as Flag>::update — the hand-written
+   state machine of Model/PreZipFlags.v *)
+Definition pre_update_value_expected (p : bytes) (s : pz_state) : pz_state := upd s (EPre p).
+Definition pre_update_switch_expected (s : pz_state) : pz_state := upd s ENoPre.
+Definition zip_update_expected (yes : bool) (s : pz_state) : pz_state := upd s (if yes then EZip else ENoZip).
